@@ -32,7 +32,7 @@ func genLSOpC01(t *rapid.T, cfg lsw.Config) lsw.Op {
 
 func genC01(t *rapid.T) lsw.Case {
 	cfg := lsw.GenConfig(t, core.Thorough())
-	cfg.ViaServer = rapid.IntRange(0, 7).Draw(t, "viaServer") == 0
+	cfg.ViaServer = rapid.IntRange(0, 4).Draw(t, "viaServer") == 0
 	maxSteps := 40
 	if core.Thorough() {
 		maxSteps = 80
@@ -106,13 +106,19 @@ func execC01(c lsw.Case) (res core.Result) {
 	initialised := false // has any call that initialises the DB object (Sync, SyncAndWait, Checkpoint) returned nil?
 	for i, o := range c.Ops {
 		if !lsw.IsLSOp(o.K) {
-			w.AppStep(o)
+			r := w.AppStep(o)
+			if os.Getenv("VERIF_TRACE") != "" {
+				fmt.Printf("TRACE step %d %-28s err=%v skipped=%v v=%d %s\n", i, o.String(), r.Err, r.Skipped, w.LastV, w.TraceState())
+			}
 			continue
 		}
 		ob := w.Obs
 		closeBeforeInit := o.K == "close" && !initialised
 		vStart := w.LastV
 		sr := w.LSStep(o)
+		if os.Getenv("VERIF_TRACE") != "" {
+			fmt.Printf("TRACE step %d %-28s err=%v acked=%v v=%d %s\n", i, o.String(), sr.Err, sr.Acked, w.LastV, w.TraceState())
+		}
 		if w.Obs.HookCommits > ob.HookCommits || w.Obs.HookLockHeld > ob.HookLockHeld {
 			nontrivial = true // an application transaction committed, or took the write lock, between two of litestream's own steps
 		}
@@ -232,6 +238,12 @@ func genInterleave(t *rapid.T, m *lsw.GenModel, k string) []lsw.Op {
 	n := rapid.IntRange(1, 3).Draw(t, "entries")
 	for i := 0; i < n; i++ {
 		x := lsw.Op{K: "at", M: rapid.SampledFrom(ph).Draw(t, "phase"), N: rapid.SampledFrom([]int{1, 1, 1, 2, 3}).Draw(t, "occ"), X: genNested(t, m)}
+		if (x.M == "snapshot_position" || x.M == "snapshot_encode") && rapid.Bool().Draw(t, "restartInHook") && m.Writer == -1 && m.ConnOpen[0] && m.Tx[0] == 0 {
+			// the application checkpoints and writes: when the WAL was completely backfilled this restarts it right
+			// between the capture of the snapshot position and the snapshot's read
+			x.X = append(x.X, lsw.Op{K: "appckpt", C: 0, M: rapid.SampledFrom([]string{"PASSIVE", "FULL", "RESTART"}).Draw(t, "hookCkpt")},
+				lsw.Op{K: "insert", C: 0, T: 0, N: rapid.SampledFrom([]int{1, 2, 5}).Draw(t, "n"), S: 1})
+		}
 		if x.M == "snapshot_position" && rapid.IntRange(0, 3).Draw(t, "lsInHook") > 0 {
 			// between a snapshot's position and its reader nothing of litestream's is held but the checkpoint read lock:
 			// the harness may sync and ask for a checkpoint right there, then let the application commit again
@@ -298,6 +310,7 @@ func genCkptEpisode(t *rapid.T, m *lsw.GenModel, cfg lsw.Config) []lsw.Op {
 // genC01I draws histories whose litestream ops carry interleaved application activity at harness-chosen pipeline points.
 func genC01I(t *rapid.T) lsw.Case {
 	cfg := lsw.GenConfig(t, core.Thorough())
+	cfg.ViaServer = rapid.IntRange(0, 3).Draw(t, "viaServer") == 0
 	if rapid.Bool().Draw(t, "smallThresholds") {
 		cfg.MinCkpt = rapid.SampledFrom([]int{1, 2, 5}).Draw(t, "minckI")
 		cfg.TruncN = rapid.SampledFrom([]int{0, 3, 10}).Draw(t, "truncI")
